@@ -18,11 +18,17 @@ TV = ("_RINvXNvMNtCs6xMQmN1AWUs_5alloc5sliceSp9to_vec_inINtNtB8_5boxed3BoxShENtB
       "ECs6qibz2J5iDx_14aranya_runtime.0")
 
 
+EQ = ("_RNvXs2_NtNtCs8xvirJzNMvV_4core5slice3cmpINtNtCs6xMQmN1AWUs_5alloc5boxed3BoxShEINtB5_14SlicePartialEqBC_E17equal_same_length"
+      "Cs6qibz2J5iDx_14aranya_runtime.0")
+# `while let Some(facts) = prior` in <LinearFactIndex<VRead> as Query>::query: one iteration per chained index (<= 3)
+IQ = "_RNvXsb_NtNtCs6qibz2J5iDx_14aranya_runtime7storage6linearINtB5_15LinearFactIndexNtNtB5_13___verif_facts5VReadENtB7_5Query5queryB9_.0"
+
+
 def args(mem, comps):
     """mem: memcmp bound (3 = byte strings of <= 2 bytes, 33 = 32-byte command ids);
     comps: max components per compound key."""
     return ["--no-memory-safety-checks", "--cbmc-args", "--unwindset",
-            f"memcmp.0:{mem},{DG}:{comps + 1},{CH}:{comps + 1},{TV}:{comps + 1}"]
+            f"memcmp.0:{mem},{DG}:{comps + 1},{CH}:{comps + 1},{TV}:{comps + 1},{EQ}:{comps + 1},{IQ}:4"]
 
 
 S3, S33, X3, X33 = args(3, 1), args(33, 1), args(3, 2), args(33, 2)
@@ -172,14 +178,14 @@ C12 = {
         "harnesses": [
             h("c12_index_chain_exact_small", Q, "LinearFactIndex::query over ANY chain of committed indexes vs flat model (newest first, tombstones hide)", "2 indexes x <=2 entries"),
             h("c12_index_chain_exact_deep", T, "same", "3 indexes x <=2 entries"),
-            h("c12_index_chain_prefix_small", Q, "LinearFactIndex::query_prefix: ascending, exact, no tombstones", "2 indexes x <=2 entries"),
-            h("c12_index_chain_prefix_deep", T, "same", "3 indexes x <=1 entry"),
-            h("c12_index_chain_prefix_mixed", T, "same, compound keys / real prefixes", "2 indexes x <=2 entries, 6 keys", X3),
+            h("c12_index_chain_prefix_small", Q, "LinearFactIndex::query_prefix: ascending, exact, no tombstones", "2 indexes x <=1 entry"),
+            h("c12_index_chain_prefix_deep", T, "same", "2 indexes x <=2 entries"),
+            h("c12_index_chain_prefix_mixed", T, "same, compound keys / real prefixes", "2 indexes x <=1 entry, 6 keys", X3),
             h("c12_perspective_chain_exact_small", Q, "LinearFactPerspective::query: top map -> prior perspective -> committed index", "<=1 entry per level, 1 index"),
             h("c12_perspective_chain_exact_deep", T, "same", "top<=2, mid<=2, 2 indexes x <=2"),
-            h("c12_perspective_chain_prefix_small", Q, "LinearFactPerspective::query_prefix over the same chain", "<=1 entry per level, 1 index"),
-            h("c12_perspective_chain_prefix_deep", T, "same", "top<=2, mid<=1, 2 indexes x <=1"),
-            h("c12_perspective_chain_prefix_mixed", T, "same, compound keys", "<=1 entry per level, 1 index, 6 keys", X3),
+            h("c12_perspective_chain_prefix_small", Q, "LinearFactPerspective::query_prefix: top map over prior perspective", "<=1 entry per level, no index"),
+            h("c12_perspective_chain_prefix_deep", T, "same over perspective, prior perspective and committed index", "<=1 entry per level, 1 index"),
+            h("c12_perspective_chain_prefix_mixed", T, "same, compound keys", "<=1 entry per level, no index, 6 keys", X3),
             h("c12_write_step_over_index", Q, "insert/delete on a perspective whose prior is a committed index: map update semantics (tombstone shadows the index)", "top<=1, 1 index x <=1"),
             h("c12_replay_step_over_index", Q, "apply_updates (mid-segment reconstruction) = the same map update", "top<=1, 1 index x <=1"),
             h("c12_replay_step_no_prior", Q, "apply_updates without prior (delete removes)", "top<=2"),
@@ -187,7 +193,7 @@ C12 = {
             h("c12_write_step_mixed", T, "write with compound keys", "top<=1, 1 index", X3),
             h("c12_compact_exact", Q, "LinearStorage::compact of ANY chain: stand-alone index (no prior, depth 1), no tombstone / empty map stored, same answers", "2 indexes x <=1 entry"),
             h("c12_compact_deep", T, "same", "3 indexes x <=1 entry"),
-            h("c12_compact_prefix", T, "same, observed through query_prefix", "2 indexes x <=2 entries"),
+            h("c12_compact_prefix", T, "same, observed through query_prefix", "2 indexes x <=1 entry"),
         ],
     }],
     "functions_encoded": [
